@@ -326,6 +326,12 @@ Lemma pmul_padd_distr_l p q r : wf q -> wf r -> peq (pmul p (padd q r)) (padd (p
 Proof. intros Hq Hr. apply peq_of_deq; [apply wf_pmul|apply wf_padd|]. apply pmul_padd_distr_l_deq; [apply Hq|apply Hr]. Qed.
 Lemma pmul_padd_distr_r p q r : wf p -> wf q -> peq (pmul (padd p q) r) (padd (pmul p r) (pmul q r)) = true.
 Proof. intros Hp Hq. apply peq_of_deq; [apply wf_pmul|apply wf_padd|]. apply pmul_padd_distr_r_deq; [apply Hp|apply Hq]. Qed.
+Lemma padd_zero p : wf p -> peq (padd (pconst 0) p) p = true.
+Proof. intro Wp. apply peq_of_deq; [apply wf_padd|exact Wp|apply padd_zero_deq; apply Wp]. Qed.
+Lemma pmul_one p : wf p -> peq (pmul (pconst 1) p) p = true.
+Proof. intro Wp. apply peq_of_deq; [apply wf_pmul|exact Wp|apply pmul_one_deq]. Qed.
+Lemma psub_padd_pneg p q : psub p q = padd p (pneg q).
+Proof. reflexivity. Qed.
 Lemma psub_self p : wf p -> psub p p = [].
 Proof.
   intro Hp. apply peq_nil_eq. apply peq_of_deq; [apply wf_psub|apply wf_nil|]. apply psub_self_deq. apply Hp.
